@@ -798,8 +798,23 @@ class _TooBig(Exception):
 
 
 _FRAC_LIMIT = 200000
-_FRAC_SECONDS = 150.0
+_FRAC_SECONDS = 12.0          # default budget of one normalisation; contracts that need more say so with frac_budget()
 _frac_deadline = [None]
+
+
+import contextlib as _contextlib
+
+
+@_contextlib.contextmanager
+def frac_budget(seconds):
+    """a larger time budget for the rational-function normaliser inside a contract"""
+    global _FRAC_SECONDS
+    saved = _FRAC_SECONDS
+    _FRAC_SECONDS = seconds
+    try:
+        yield
+    finally:
+        _FRAC_SECONDS = saved
 
 
 def _pmul(a, b):
